@@ -96,6 +96,13 @@ def items(tier):
             for failing in range(1, n):
                 for fk in (["exit", 3], ["mkdir"], ["execfail"]):
                     out.append({"case": {"g": g, "kinds": ["cmd"] * n, "pars": list(pars), "jobs": 2, "fails": {str(failing): fk}}, "bound": 0})
+    # a failing task while a slot is free, then several tasks becoming ready at once (the free list after a failure)
+    for g, failing in (([[1, 2, 3, 4], [5], [5], [5], [], []], 4), ([[1, 2, 3, 4], [5], [5], [5], [], []], 5), ([[1, 2, 3], [4], [4], [4], []], 4),
+                       ([[1, 2, 3, 4, 5], [6], [6], [6], [6], [], []], 5)):
+        n = len(g)
+        for jobs in (3, 4):
+            for kinds in (["cmd"] * n, ["group"] + ["exp"] * (n - 1)):
+                out.append({"case": {"g": g, "kinds": kinds, "pars": [k != "group" for k in kinds], "jobs": jobs, "fails": {str(failing): ["exit", 3]}}, "bound": 0})
     # wide shapes: antichain under a root, n = 5 (root + 4 leaves), and two-level fans
     wide = [[[1, 2, 3, 4], [], [], [], []], [[1, 2], [3, 4], [3, 4], [], []], [[1, 2, 3], [4], [4], [4], []]]
     for g in wide:
